@@ -75,7 +75,7 @@ func c02Body(r *rand.Rand, kind string, size int) []byte {
 	return b[:size]
 }
 
-func c02Site(o *origin, rng *rand.Rand, nSeeds int, discard []int) (hubs []string, nResp int) {
+func c02Site(o *origin, rng *rand.Rand, nSeeds int, discard []int, heavy bool) (hubs []string, nResp int) {
 	port := o.Port
 	nHost := 0
 	host := func() string { nHost++; return hostOf(3+nHost/250, 1+nHost%250, port) }
@@ -98,6 +98,9 @@ func c02Site(o *origin, rng *rand.Rand, nSeeds int, discard []int) (hubs []strin
 			if rng.Intn(40) == 0 {
 				size = []int{2097151, 2097152, 2097153}[rng.Intn(3)]
 				kind = pick(rng, []string{"text", "bin"})
+			}
+			if heavy && rng.Intn(3) == 0 { // many large incompressible bodies: the WARC writer lags behind the fetches
+				size, kind = (2<<20)+rng.Intn(2<<20), "bin"
 			}
 			rt := &route{Status: 200, Headers: map[string]string{"Content-Type": ctypes[kind]}, Body: c02Body(rng, kind, size), Chunked: rng.Intn(3) == 0, Gzip: rng.Intn(4) == 0 && size > 0, Tag: kind}
 			switch x := rng.Intn(20); {
@@ -174,7 +177,7 @@ func c02Child(scPath string) int {
 	if discard == nil {
 		discard = []int{429}
 	}
-	hubs, _ := c02Site(org, pipeRand(sc.Seed, "c02site", sc.Index), sc.NSeeds, discard)
+	hubs, _ := c02Site(org, pipeRand(sc.Seed, "c02site", sc.Index), sc.NSeeds, discard, sc.StopAtResp > 0)
 	if err := pr.applyConfig(hubs); err != nil {
 		rep.violation("harness/config", err.Error(), nil)
 		return 0
@@ -390,6 +393,9 @@ func c02(r *vc.Run) int {
 			WARCOnDisk:          (i/12)%2 == 1,
 			DisableLocalDedupe:  rng.Intn(2) == 0,
 			WARCDiscardStatus:   [][]int{{429}, {429, 404}}[rng.Intn(2)],
+		}
+		if i%4 == 2 { // the mid-flight stop runs: many fetches in flight, one WARC writer, large bodies
+			cfg.Workers, cfg.MaxConcurrentAssets, cfg.WARCPoolSize = 4, 8, 1
 		}
 		scs = append(scs, c02Scenario{Seed: r.Seed, Index: i, Cfg: cfg, NSeeds: 14 + rng.Intn(10), Perturb: i % 3, UseProxy: i%5 == 4, StopAtResp: map[bool]int{true: 5 + rng.Intn(40), false: 0}[i%4 == 2]})
 	}
